@@ -25,7 +25,8 @@ LEVEL_TEXT = ("(a) Sequential histories (<= 40 operations) over 3 destination co
               "shutdown to a destination that was (eventually) registered is handled exactly once, on the agent's "
               "thread; for each (sender thread, destination, type) handling order == posting order; pre-loaded "
               "messages are handled in (type, posting order) order; nothing posted after shutdown is handled. "
-              "Interleavings in (b) are perturbed, not enumerated.")
+              "Interleavings in (b) are perturbed, not enumerated. "
+              "In a quarter of the histories all messages have equal content (and a harness-side id).")
 LEVEL_NOTE = ("Trusted: the reference queue model (a dozen lines) and the log invariants. (b) cannot force a given "
               "preemption: a race needing a window of a few bytecodes is likely to be missed; (a) checks the same "
               "logic deterministically.")
